@@ -270,6 +270,7 @@ impl Property for C28Prop {
                 }
             }
         }
+        ctx::add_steps(steps as u64);
         ev!("end: value {} within [{}, {}]: {}", ms(b.value()), ms(initial), ms(max), b.value() >= initial && b.value() <= max);
     }
 }
